@@ -75,6 +75,11 @@ class Spec:
     def driver_build(self):
         return C.build_driver(self.driver, self.variant, self.extra_units)
 
+    def extra_findings(self, tier, rng):
+        """additional implementation-level exploration with its own driver; returns
+        (evaluations, distinct_nontrivial, [(Finding, ops_lines)])"""
+        return 0, 0, []
+
 
 def strip_comments(txt):
     txt = re.sub(r"/-.*?-/", "", txt, flags=re.S)
@@ -175,7 +180,14 @@ def run_case(spec, impl_exe, model_cmd, case):
     ig = spec.canon_impl(ig)
     out = {"impl_rc": rc, "impl": ig, "impl_err": err, "impl_tail": itail, "diff": None}
     if model_cmd:
-        mrc, mlines, merr = C.run_lines(model_cmd, text)
+        mtext = text
+        derive = getattr(spec, "derive_model", None)
+        if derive is not None and rc == 0:
+            # the model is driven by what was observed on the implementation (hook lines); the
+            # expected model output is computed from the same trace
+            mtext, ig = derive(case, case.meta["raw_impl"])
+            out["impl"] = ig
+        mrc, mlines, merr = C.run_lines(model_cmd, mtext)
         mg, mtail = C.split_by_op(mlines)
         mg = spec.canon_model(mg)
         out["model"] = mg
@@ -296,6 +308,22 @@ def run_property(spec, tier, sd, replay, t0):
         if (tie_broken or first_diff) and not violations and tier != "thorough":
             run_batch(list(spec.cases(C.Rng(sd + 7919), "thorough")))
 
+    if not replay:
+        try:
+            ev, nt, extra = spec.extra_findings(tier, C.Rng(sd * 7 + 13))
+        except C.BuildError as e:
+            ev, nt, extra = 0, 0, []
+            tie_broken.append(("harness-build", str(e)))
+        stats["evaluations"] += ev
+        for k in range(nt):
+            stats["nontrivial"].add(("extra", k))
+        for f, ops in extra:
+            km = known_match(pid, f.cls, known)
+            if km:
+                knowns_seen.setdefault(f.cls, (km, f.msg))
+            else:
+                violations.append((f.cls, f.msg, Case("extra", ops, {"noshrink": True})))
+
     if first_diff is not None:
         case, d = first_diff
         tie_broken.append(("correspondence", "case %s: first difference at op %s\n impl : %s\n model: %s" % (
@@ -308,7 +336,7 @@ def run_property(spec, tier, sd, replay, t0):
     if violations:
         cls, msg, case = violations[0]
         ops = case.ops
-        if impl_exe is not None and len(ops) > 1:
+        if impl_exe is not None and len(ops) > 1 and not case.meta.get("noshrink"):
             ops = shrink_case(spec, impl_exe, None, case,
                               lambda r: any(f.cls == cls for f in r["findings"]))
         p = C.write_replay(pid, "violation-%s.ops" % re.sub(r"[^A-Za-z0-9]+", "-", cls),
